@@ -67,7 +67,8 @@ func c12ForEachOp(a *c12Act, f func(o *c12Op)) {
 func c12GenHist(r *rand.Rand) c12Hist {
 	var others []string
 	maxDepth, maxFan := 1+r.Intn(3), 1+r.Intn(3)
-	root := c12RandTree(r, "r", 0, maxDepth, maxFan, &others)
+	var tpls []string
+	root := c12RandTree(r, "r", 0, maxDepth, maxFan, &others, &tpls)
 	exts := 0
 	c12ForEachOp(&root, func(o *c12Op) {
 		if o.K == "ext" {
